@@ -15,7 +15,12 @@
    replacement installs a task whose loader is DelayedLoaded), which is how [load_branch] decides
    whether the mutation is visible through the table.
    A DelayedLoader object is identified by the name of the task load_tasks created it for
-   (loader.py 180: one copy per placeholder).  Creators are data: [creators c to_load] is the list
+   (loader.py 180: one copy per placeholder: create_after(creates=[a,b]) gives two objects, each with
+   its own `created` flag).  The loader branch reads TWO loader objects: the placeholder's own one
+   (this_task.loader: creator, basename, and the flag it sets at 518) and the one reachable through
+   the table, tasks[to_load].loader (486-487: the flag it tests); they differ exactly when the node
+   still holds a placeholder object whose table entry was replaced meanwhile (the node of b was made
+   before a's evaluation installed the real b).  Creators are data: [creators c to_load] is the list
    of tasks generate_tasks(to_load, creator_c()) returns.
    Restrictions (inputs the model does not cover): created tasks have no loader of their own;
    names used as dependencies of created tasks exist; creators do not raise. *)
@@ -98,7 +103,8 @@ Inductive dev :=
 | ECreate (c : N) (l : name) (to_load : name)   (* creator c called through loader object l; generate_tasks(to_load, ...) *)
 | ERuntimeError                                  (* reporter.runtime_error: InvalidTask caught by run_all *)
 | ENotFound (f : name)                           (* InvalidCommand(not_found=f) escaping run_all *)
-| EKeyError.                                     (* KeyError from regex_group.tasks.remove escaping run_all *)
+| EKeyError                                      (* KeyError from regex_group.tasks.remove escaping run_all *)
+| EOp (code arg : N).                            (* scripted runs only: a call of the runner / a yield of the dispatcher *)
 
 Record dst := {
   q_nodes : name -> option dnode;
@@ -180,10 +186,17 @@ Definition finish_new (tg : name -> option name) (t : dtask) : dtask :=
 Definition install (d : dst) (new : list (name * dtask)) : dst :=
   fold_left (fun d kt => set_tab d (fst kt) (finish_new (q_tg d) (snd kt))) new d.
 
+(* which code: HEAD; the code before the repair 0acbaec (no marking of the other loader copies of the
+   same creator, control.py 495-499); the seeded change C15b (the `created` flag tested is the one of
+   the placeholder's own loader copy instead of tasks[to_load].loader).  The two non-HEAD variants
+   are kept so that the defects stay stated next to the theorems (Properties/C15.v, *_refuted) *)
+Inductive variant := VHead | VLegacy | VOwn.
+
 Section Model.
-(* [legacy] = true selects the code before the repair 0acbaec (no marking of the other loader copies
-   of the same creator, control.py 495-499); kept so that the defect stays stated next to the theorem *)
-Variable legacy : bool.
+Variable v : variant.
+(* a list containing every key of the task table (TaskDispatcher.tasks); used only to enumerate
+   `self.tasks.values()` at 497-499.  Names that are no key are harmless: they have no loader *)
+Variable keys : list name.
 Variable creators : N -> name -> list (name * dtask).
 Variable wake_rank : name -> name -> N.
 Variable calc_rank : name -> N.
@@ -238,18 +251,26 @@ Inductive lres := LReset (d : dst) | LInvalidTask (d : dst) | LNotFound (f : nam
 Definition to_load_of (d : dst) (me T : name) : name :=
   match l_basename (q_ld d T) with Some b => b | None => me end.
 
-(* 495-499: every task of the table whose loader refers to the same creator function gets
-   loader.created = True.  The model marks every loader object of that creator, referenced by the
-   table or not: `created` is only ever read through tasks[to_load].loader, and during a run no table
-   entry acquires a loader, so the flag of an unreferenced loader object is never read. *)
+(* 495-499: every task of the table (after the new tasks were installed) whose loader refers to the
+   same creator function gets loader.created = True.  A loader object that no table entry refers to
+   any more (the copy held by a stale placeholder node) is NOT marked. *)
+Definition referenced (d : dst) (T : name) : bool :=
+  existsb (fun k => match dt_loader (tab_get d k) with Some T' => T' =? T | None => false end) keys.
 Definition mark_creator (d : dst) (c : N) : dst :=
-  set_lds d (fun T => if l_creator (q_ld d T) =? c then ld_created (q_ld d T) else q_ld d T).
+  set_lds d (fun T => if (l_creator (q_ld d T) =? c) && referenced d T then ld_created (q_ld d T) else q_ld d T).
+
+(* 483-487: the loader object whose `created` flag decides: tasks[to_load].loader (None = DelayedLoaded) *)
+Definition loader_read (d : dst) (me T : name) : option name :=
+  match v with
+  | VOwn => Some T                                   (* seeded change C15b: this_task.loader *)
+  | _ => dt_loader (tab_get d (to_load_of d me T))
+  end.
 
 (* 484-499: run the creator unless tasks[to_load].loader is gone or says created *)
 Definition create_part (d : dst) (me T : name) : option dst :=
   let L := q_ld d T in
   let to_load := to_load_of d me T in
-  match dt_loader (tab_get d to_load) with
+  match loader_read d me T with
   | None => Some d
   | Some T' =>
     if l_created (q_ld d T') then Some d
@@ -259,7 +280,7 @@ Definition create_part (d : dst) (me T : name) : option dst :=
       match add_targets (q_tg d1) new with
       | None => None
       | Some tg' => let d2 := install (set_tg d1 tg') new in
-                    Some (if legacy then d2 else mark_creator d2 (l_creator L))
+                    Some (match v with VLegacy => d2 | _ => mark_creator d2 (l_creator L) end)
       end
   end.
 
@@ -514,13 +535,14 @@ Definition is_interrupt (r : rstate) (k : name) : bool :=
 Definition finish (r : rstate) : rstate := emit r (EClose :: map ETeardown (rev (r_td r))).
 
 Inductive stop := StopNormal | StopCycle (path : list name) | StopHold | StopInterrupt (k : name)
-                | StopInvalidTask | StopNotFound (f : name) | StopKeyError | StopFuel.
+                | StopInvalidTask | StopNotFound (f : name) | StopKeyError | StopFuel
+                | StopProtocol.   (* scripted runs only: a node was sent back to the dispatcher before the runner gave it a status *)
 (* exit status of `doit run`: run_all's result; InvalidDodoFile / InvalidCommand escaping -> 3
    (doit_cmd.py DoitMain.run); KeyError -> unexpected-error status 3 as well *)
 Definition exit_code (r : rstate) (s : stop) : N :=
   match s with
   | StopNormal => r_final r | StopCycle _ | StopHold => 3 | StopInterrupt _ => 4
-  | StopInvalidTask => 2 | StopNotFound _ => 3 | StopKeyError => 3 | StopFuel => 99 end.
+  | StopInvalidTask => 2 | StopNotFound _ => 3 | StopKeyError => 3 | StopFuel => 99 | StopProtocol => 98 end.
 Definition stop_marker (s : stop) : list dev :=
   match s with
   | StopCycle p => [Ev (ECycleError p)] | StopHold => [Ev EHoldError] | StopInterrupt k => [Ev (EInterrupt k)]
@@ -552,6 +574,69 @@ Definition r_init (d : dst) : rstate := {| r_d := d; r_final := 0; r_stop := fal
 
 Definition run_serial (fuel : nat) (d : dst) : list dev * N :=
   let '(r, s) := serial fuel (r_init d) None in (q_tr (r_d r) ++ stop_marker s, exit_code r s).
+
+(* ---------------- any runner: the run as a script of the runner's calls ----------------
+   MRunner / MThreadRunner (runner.py 358-625) use the same dispatcher generator and the same
+   select_task / execute_task / process_task_result / finish as the serial Runner, but WHEN they send
+   which finished node back (get_next_job 400-432, run_tasks 489-553) depends on the number of
+   workers and on the order in which results arrive.  [run_ops] does what the script says, whatever
+   the script: OSend p = generator.send(node of p); the others are the runner's own methods.  After a
+   dispatcher error only `finish` has an effect (run_all 270-286: finally self.finish()).
+   Markers (EOp) make the calls and the dispatcher's answers part of the compared trace. *)
+Inductive sop := OSend (p : option name) | OSelect (k : name) | OExec (k : name) | OResult (k : name)
+               | OHoldErr       (* run_tasks 505/537: all workers on hold -> cyclic_hold_error() *)
+               | OFinish.
+
+Definition emitr (r : rstate) (e : list dev) : rstate := with_d r (emitd (r_d r) e).
+
+Definition sent_ok (d : dst) (p : option name) : bool :=
+  match p with None => true | Some k => match st_of d k with SNone => false | _ => true end end.
+
+Definition run_op (fuel : nat) (r : rstate) (o : sop) : rstate * option stop :=
+  match o with
+  | OSend p =>
+      let r0 := emitr r [EOp 70 (match p with Some k => k | None => 0 end)] in
+      if sent_ok (r_d r) p then
+        match disp_send fuel (r_d r0) p with
+        | (DTask k, d) => (emitr (with_d r0 d) [EOp 60 k], None)
+        | (DHold, d) => (emitr (with_d r0 d) [EOp 61 0], None)
+        | (DStop, d) => (emitr (with_d r0 d) [EOp 62 0], Some StopNormal)
+        | (DCycle p, d) => (with_d r0 d, Some (StopCycle p))
+        | (DInvalidTask, d) => (with_d r0 (emitd d [ERuntimeError]), Some StopInvalidTask)
+        | (DNotFound f, d) => (with_d r0 d, Some (StopNotFound f))
+        | (DKeyError, d) => (with_d r0 d, Some StopKeyError)
+        | (DFuel, d) => (with_d r0 d, Some StopFuel)
+        end
+      else (r0, Some StopProtocol)
+  | OSelect k =>
+      let '(b, r1) := select_task (emitr r [EOp 71 k]) k in (emitr r1 [EOp 63 (if b then 1 else 0)], None)
+  | OExec k => (start_task r k, None)
+  | OResult k => (process_result (emitr r [EOp 72 k]) k, None)
+  | OHoldErr => (r, Some StopHold)
+  | OFinish => (finish (emitr r [EOp 73 0]), None)
+  end.
+
+(* [live]: the run goes on (None), or the generator is exhausted but results may still arrive (StopNormal) *)
+Definition live (s : option stop) : bool := match s with None | Some StopNormal => true | Some _ => false end.
+Definition merge_stop (s s1 : option stop) : option stop := match s1 with Some x => Some x | None => s end.
+
+Definition step_op (fuel : nat) (rs : rstate * option stop) (o : sop) : rstate * option stop :=
+  let '(r, s) := rs in
+  if live s then
+    match s, o with
+    (* the generator is exhausted: get_next_job 411-419 gets StopIteration again, nothing else happens *)
+    | Some _, OSend p => (emitr r [EOp 70 (match p with Some k => k | None => 0 end); EOp 62 0], s)
+    | _, _ => let '(r1, s1) := run_op fuel r o in (r1, merge_stop s s1)
+    end
+  else match o with OFinish => (fst (run_op fuel r OFinish), s) | _ => (r, s) end.
+
+Definition run_ops (fuel : nat) (ops : list sop) (r : rstate) : rstate * option stop :=
+  fold_left (step_op fuel) ops (r, None).
+
+Definition stop_of (s : option stop) : stop := match s with Some x => x | None => StopNormal end.
+
+Definition run_script (fuel : nat) (ops : list sop) (d : dst) : list dev * N :=
+  let '(r, s) := run_ops fuel ops (r_init d) in (q_tr (r_d r) ++ stop_marker (stop_of s), exit_code r (stop_of s)).
 
 End Model.
 
@@ -651,6 +736,7 @@ Definition enc_dev (e : dev) : list Z :=
   | ERuntimeError => [30]
   | ENotFound f => [15; zN f]
   | EKeyError => [16]
+  | EOp c a => [zN c; zN a]
   end%Z.
 Definition enc_dtrace (tr : list dev) : list Z := flat_map enc_dev tr.
 
@@ -660,6 +746,7 @@ Definition opt_name_eqb (a b : option name) : bool :=
   match a, b with Some x, Some y => N.eqb x y | None, None => true | _, _ => false end.
 Definition init_okb (names : list name) (d : dst) : bool :=
   is_nil (q_tr d) &&
+  forallb (fun k => match dt_loader (tab_get d k) with Some _ => mem k names | None => true end) names &&
   forallb (fun k => match q_nodes d k with None => true | Some _ => false end) names &&
   forallb (fun T => match l_basename (q_ld d T) with
                     | Some b => opt_name_eqb (dt_loader (tab_get d b)) (Some T) | None => true end) names &&
@@ -669,11 +756,22 @@ Definition init_okb (names : list name) (d : dst) : bool :=
                     | None => true end) names.
 
 (* whole command: selection then serial run; selection error = [40], exit 3;
-   the last two numbers: -2, init_okb of the selected state over the names 0..nmax *)
-Definition run_cmd legacy creators wake_rank calc_rank cont always base_of is_rx rmatch rx_name auto
+   the last two numbers: -2, init_okb of the selected state over the names 0..nmax;
+   the key list given to the model (mark_creator) is the same list of all names *)
+Definition run_cmd v creators wake_rank calc_rank cont always base_of is_rx rmatch rx_name auto
                    (fuel : nat) (d : dst) (order : list name) (sel : option (list name)) (nmax : nat) : list Z :=
+  let names := map N.of_nat (seq 0 (S nmax)) in
   match process_sel base_of is_rx rmatch rx_name auto d order sel with
   | None => [40; -1; 3]%Z
-  | Some d0 => let r := run_serial legacy creators wake_rank calc_rank cont always fuel d0 in
-               (enc_dtrace (fst r) ++ [-1; zN (snd r); -2; zb (init_okb (map N.of_nat (seq 0 (S nmax))) d0)])%Z
+  | Some d0 => let r := run_serial v names creators wake_rank calc_rank cont always fuel d0 in
+               (enc_dtrace (fst r) ++ [-1; zN (snd r); -2; zb (init_okb names d0)])%Z
+  end.
+(* the same with a parallel runner: selection, then the recorded script of the runner's calls *)
+Definition run_script_cmd v creators wake_rank calc_rank cont always base_of is_rx rmatch rx_name auto
+                   (fuel : nat) (d : dst) (order : list name) (sel : option (list name)) (ops : list sop) (nmax : nat) : list Z :=
+  let names := map N.of_nat (seq 0 (S nmax)) in
+  match process_sel base_of is_rx rmatch rx_name auto d order sel with
+  | None => [40; -1; 3]%Z
+  | Some d0 => let r := run_script v names creators wake_rank calc_rank cont always fuel ops d0 in
+               (enc_dtrace (fst r) ++ [-1; zN (snd r); -2; zb (init_okb names d0)])%Z
   end.
